@@ -77,6 +77,23 @@ Section ReplaceProofs.
       rewrite !app_length. split; lia.
     Qed.
 
+    (* every position of the output is a position of the input *)
+    Lemma aligned_incl i t ps t' ps' :
+      aligned i t ps t' ps' -> incl ps' ps.
+    Proof.
+      induction 1 as [|i c p t ps t' ps' HQ H IH
+                      |i u pu rp t ps t' ps' Hu Hl HP [Hr Hk] H IH].
+      - apply incl_refl.
+      - intros x [Hx|Hx]; [left; exact Hx | right; apply IH; exact Hx].
+      - intros x Hx. apply in_app_or in Hx. destruct Hx as [Hx|Hx].
+        + apply in_or_app. left.
+          apply In_nth_error in Hx. destruct Hx as [k Ek].
+          assert (k < length repl) as Hlt.
+          { rewrite <- Hr. apply nth_error_Some. rewrite Ek. discriminate. }
+          rewrite (Hk k Hlt) in Ek. eapply nth_error_In. exact Ek.
+        + apply in_or_app. right. apply IH. exact Hx.
+    Qed.
+
     Lemma aligned_keep_block k pk : forall i t ps t' ps',
       length k = length pk ->
       (forall j, i <= j < i + length k -> Q j) ->
@@ -325,6 +342,27 @@ Section ReplaceProofs.
           as (t1 & p1 & E1 & Hal).
         rewrite E1. cbn [rbind fst snd]. apply IH.
         apply aligned_length in Hal. destruct Hal as [_ H]. exact H.
+  Qed.
+
+  (* and no position is invented: the positions of the result are among the
+     positions given *)
+  Theorem replace_phrases_incl : forall lines txt pos t' p',
+    length txt = length pos ->
+    replace_phrases is_space is_alpha is_word txt pos lines = Ok (t', p') ->
+    incl p' pos.
+  Proof.
+    induction lines as [|lin lines IH]; intros txt pos t' p' Hlen H;
+      cbn [replace_phrases] in H.
+    - inversion H; subst. apply incl_refl.
+    - destruct (r_words (parse_rule is_space lin)) as [|w ws] eqn:E.
+      + eapply IH; [exact Hlen | exact H].
+      + destruct (substitute_aligned txt pos (w :: ws)
+                    (r_repl (parse_rule is_space lin)) Hlen)
+          as (t1 & p1 & E1 & Hal).
+        rewrite E1 in H. cbn [rbind fst snd] in H.
+        pose proof (aligned_incl _ _ _ _ _ _ _ _ Hal) as Hi.
+        apply aligned_length in Hal. destruct Hal as [_ Hl1].
+        eapply incl_tran; [eapply IH; [exact Hl1 | exact H] | exact Hi].
   Qed.
 
   (* a rule line without left-hand side changes nothing *)
